@@ -14,7 +14,7 @@ would report an unknown shape (or worse, a missing step).  A helper is a functio
     statements whose only `return` is the last statement of the body (statement helper).
 
 Each call `H(..)` / `self.H(..)` in the same module (same class for methods) at an inlinable position is
-replaced by the body with parameters substituted and locals renamed (`<local>__<H>`); when the result is
+replaced by the body with parameters substituted and locals renamed (`<local>__i<n>`); when the result is
 bound to plain names (`a, b = H(..)`) the returned locals take those names directly, so that
 `succs, preds = _edge_tables(g)` reads exactly like the code it was extracted from.  A helper all of whose
 references were inlined is removed from the tree (its statements are analysed where they run); otherwise it
@@ -75,6 +75,7 @@ class _Helper:
     def __init__(self, node: ast.FunctionDef, cls: Optional[ast.ClassDef], kind: str) -> None:
         self.node = node
         self.cls = cls
+        self.static = any(isinstance(d, ast.Name) and d.id == "staticmethod" for d in node.decorator_list)
         self.kind = kind  # 'expr' | 'stmts'
         self.inlined = 0
 
@@ -100,7 +101,7 @@ def _own_nodes(fn: ast.AST):
 
 
 def _classify(fn: ast.FunctionDef) -> Optional[str]:
-    if isinstance(fn, ast.AsyncFunctionDef) or fn.decorator_list:
+    if isinstance(fn, ast.AsyncFunctionDef) or any(not (isinstance(d, ast.Name) and d.id == "staticmethod") for d in fn.decorator_list):
         return None
     a = fn.args
     if a.vararg or a.kwarg or a.posonlyargs:
@@ -205,13 +206,14 @@ def _helper_body(fn: ast.FunctionDef) -> List[ast.stmt]:
 def _expand(h: _Helper, call: ast.Call, caller: ast.AST, targets: Optional[ast.AST], want: str) -> Optional[Tuple[List[ast.stmt], Optional[ast.AST]]]:
     """(statements to insert, expression that replaces the call or None).  want: 'expr' | 'stmt' | 'assign' | 'return'"""
     fn = h.node
-    is_method = h.cls is not None
+    is_method = h.cls is not None and not h.static
     binding = _bind(fn, call, is_method)
     if binding is None:
         return None
     stored = _stored_names(fn)
     body = _helper_body(fn)
-    suffix = "__" + fn.name.strip("_")
+    # neutral suffix: the helper's own name must not leak into local names (text matches on names)
+    suffix = "__i%d" % (sum(map(ord, fn.name)) % 97)
     caller_names = _names_used(caller)
     names: Dict[str, ast.AST] = {}
     rename: Dict[str, str] = {}
@@ -297,6 +299,11 @@ def _inline_in_function(caller: ast.AST, helpers: Dict[Tuple[Optional[str], str]
             return helpers.get((None, f.id))
         if isinstance(f, ast.Attribute) and isinstance(f.value, ast.Name) and f.value.id == "self" and cls_name is not None:
             return helpers.get((cls_name, f.attr))
+        if isinstance(f, ast.Attribute) and isinstance(f.value, ast.Name):
+            # ClassName.helper(..) for a static helper
+            h_ = helpers.get((f.value.id, f.attr))
+            if h_ is not None and h_.static:
+                return h_
         return None
 
     def expr_sites(node: ast.AST) -> None:
@@ -371,7 +378,7 @@ def _inline_in_function(caller: ast.AST, helpers: Dict[Tuple[Optional[str], str]
                     elif want in ("test", "iter"):
                         if result is None:
                             result = ast.Constant(value=None)
-                        tmp = "result__" + h.node.name.strip("_")
+                        tmp = "result__i%d" % (sum(map(ord, h.node.name)) % 97)
                         if isinstance(result, (ast.Name, ast.Constant)):
                             val2: ast.AST = result
                         else:
@@ -444,10 +451,145 @@ def _renamed_into(targets: Optional[ast.AST], stmts: List[ast.stmt]) -> bool:
     return bool(want) and want <= have
 
 
+def _forwarder(fn: ast.FunctionDef) -> Optional[Tuple[str, ast.Call]]:
+    """(name of the forwarded-to method, the call) when fn does nothing but `[return] self.G(..)` with its
+    own parameters (each at most once), constants and global names as arguments"""
+    if fn.decorator_list or isinstance(fn, ast.AsyncFunctionDef) or not fn.args.args or fn.args.vararg or fn.args.kwarg:
+        return None
+    body = _helper_body(fn)
+    if len(body) != 1 or not isinstance(body[0], (ast.Expr, ast.Return)) or not isinstance(body[0].value, ast.Call):
+        return None
+    call = body[0].value
+    self_name = fn.args.args[0].arg
+    f = call.func
+    if not (isinstance(f, ast.Attribute) and isinstance(f.value, ast.Name) and f.value.id == self_name and f.attr != fn.name):
+        return None
+    params = [a.arg for a in fn.args.args[1:]] + [a.arg for a in fn.args.kwonlyargs]
+    seen: Set[str] = set()
+    for a in list(call.args) + [k.value for k in call.keywords]:
+        if isinstance(a, ast.Name):
+            if a.id in params:
+                if a.id in seen:
+                    return None
+                seen.add(a.id)
+            elif a.id == self_name:
+                return None
+        elif isinstance(a, ast.Constant) or (isinstance(a, ast.Attribute) and _simple_arg(a) and self_name not in _names_used(a)):
+            pass
+        elif isinstance(a, (ast.List, ast.Tuple)) and not a.elts:
+            pass
+        else:
+            return None
+    if any(k.arg is None for k in call.keywords) or any(isinstance(a, ast.Starred) for a in call.args):
+        return None
+    return f.attr, call
+
+
+def _module_bindings(tree: ast.Module) -> Set[str]:
+    out: Set[str] = set()
+    for st in tree.body:
+        if isinstance(st, (ast.Import, ast.ImportFrom)):
+            for a in st.names:
+                out.add((a.asname or a.name).split(".")[0])
+        elif isinstance(st, _FUNC + (ast.ClassDef,)):
+            out.add(st.name)
+        elif isinstance(st, (ast.Assign, ast.AnnAssign)):
+            for x in ast.walk(st):
+                if isinstance(x, ast.Name) and isinstance(x.ctx, ast.Store):
+                    out.add(x.id)
+    return out
+
+
+def _import_for(trees: Dict[str, ast.Module], home: str, name: str) -> Optional[ast.stmt]:
+    """an import statement that binds `name` the way module `home` does"""
+    tree = trees.get(home)
+    if tree is None:
+        return None
+    for st in tree.body:
+        if isinstance(st, ast.ImportFrom) and st.level == 0:
+            for a in st.names:
+                if (a.asname or a.name) == name:
+                    return ast.fix_missing_locations(ast.ImportFrom(module=st.module, names=[ast.alias(name=a.name, asname=a.asname)], level=0))
+        elif isinstance(st, _FUNC + (ast.ClassDef,)) and st.name == name:
+            return ast.fix_missing_locations(ast.ImportFrom(module=home, names=[ast.alias(name=name, asname=None)], level=0))
+    return None
+
+
+def expand_forwarders(trees: Dict[str, ast.Module]) -> List[str]:
+    """`x.F(a, b)` -> `x.G(a, b, K)` for every method F that only forwards to `self.G(.., K)`.
+    The typed insertion wrappers (`insert_SyntheticTail(n, P, S)` = `insert_block(n, P, S, SyntheticTail)`)
+    are the case in point: whether a caller goes through the wrapper or not, the rules see one form.
+    The wrappers themselves stay defined."""
+    notes: List[str] = []
+    method_count: Dict[str, int] = {}
+    defs: Dict[str, ast.FunctionDef] = {}
+    for t in trees.values():
+        for n in ast.walk(t):
+            if isinstance(n, ast.ClassDef):
+                for s in n.body:
+                    if isinstance(s, _FUNC):
+                        method_count[s.name] = method_count.get(s.name, 0) + 1
+                        defs[s.name] = s  # type: ignore[assignment]
+    fwd: Dict[str, Tuple[ast.FunctionDef, str, ast.Call]] = {}
+    fwd_home: Dict[str, str] = {}
+    for mod_, t_ in trees.items():
+        for n_ in ast.walk(t_):
+            if isinstance(n_, ast.ClassDef):
+                for s_ in n_.body:
+                    if isinstance(s_, _FUNC):
+                        fwd_home[s_.name] = mod_
+    for name, fn in defs.items():
+        if method_count[name] != 1 or name.startswith("__"):
+            continue
+        r = _forwarder(fn)
+        if r is not None:
+            fwd[name] = (fn, r[0], r[1])
+    if not fwd:
+        return notes
+    counts: Dict[str, int] = {}
+    for t in trees.values():
+        for n in ast.walk(t):
+            if not (isinstance(n, ast.Call) and isinstance(n.func, ast.Attribute) and n.func.attr in fwd):
+                continue
+            fn, target, inner = fwd[n.func.attr]
+            # not the forwarding call inside the wrapper itself
+            binding = _bind(fn, n, True)
+            if binding is None:
+                continue
+            new_args = []
+            for a in inner.args:
+                new_args.append(copy.deepcopy(binding[a.id]) if isinstance(a, ast.Name) and a.id in binding else copy.deepcopy(a))
+            new_kws = []
+            for k in inner.keywords:
+                v = k.value
+                new_kws.append(ast.keyword(arg=k.arg, value=copy.deepcopy(binding[v.id]) if isinstance(v, ast.Name) and v.id in binding else copy.deepcopy(v)))
+            # global names the forwarded call mentions (block classes) must be visible where the call is
+            # expanded: the import that binds them in the wrapper's module is replicated (analysis only)
+            need = {x.id for a in list(inner.args) + [k.value for k in inner.keywords] for x in ast.walk(a) if isinstance(x, ast.Name) and x.id not in binding}
+            missing = need - _module_bindings(t)
+            ok_ = True
+            for nm in sorted(missing):
+                imp = _import_for(trees, fwd_home[n.func.attr], nm)
+                if imp is None:
+                    ok_ = False
+                    break
+                t.body.insert(0, imp)
+            if not ok_:
+                continue
+            counts[n.func.attr] = counts.get(n.func.attr, 0) + 1
+            n.func.attr = target
+            n.args = new_args
+            n.keywords = new_kws
+            ast.fix_missing_locations(n)
+    for k, v in sorted(counts.items()):
+        notes.append(f"forwarder {k} -> {fwd[k][1]}: {v} call site(s) expanded")
+    return notes
+
+
 def inline_helpers(trees: Dict[str, ast.Module], anchors: Optional[Set[str]] = None) -> List[str]:
     """In-place.  Returns notes `module: helper -> n sites (dissolved|kept)`."""
     anchors = anchor_names() if anchors is None else anchors
-    notes: List[str] = []
+    notes: List[str] = expand_forwarders(trees)
     # method names defined in more than one class anywhere are subject to dispatch
     method_count: Dict[str, int] = {}
     for t in trees.values():
@@ -467,7 +609,7 @@ def inline_helpers(trees: Dict[str, ast.Module], anchors: Optional[Set[str]] = N
                 for s in st.body:
                     if isinstance(s, ast.FunctionDef) and _private(s.name) and s.name not in anchors and method_count.get(s.name) == 1:
                         k = _classify(s)
-                        if k and s.args.args and not _calls_name(s, s.name):
+                        if k and (s.args.args or s.decorator_list) and not _calls_name(s, s.name):
                             helpers[(st.name, s.name)] = _Helper(s, st, k)
         if not helpers:
             continue
